@@ -487,13 +487,18 @@ def symTabFor (o : Obj) (i : Nat) : Option (Obj × SymTab) :=
     let r3 := if hi == 0 then (r2.1, none) else settleOpt r2.1 hi
     some (r3.1, { cfg := ⟨o.cls, o.enc⟩, sym := b, str := r2.2, hash := r3.2 })
 
+/-- the scan over `sections[j], j < nSecNo` that collects the callback's relocation sections -/
+def relsOfGo (i n : Nat) : List SecBuf → Nat → List Nat
+  | [], _ => []
+  | r :: rest, j =>
+    if j ≥ n then []
+    else if j != i && (r.stype == BitVec.ofNat 32 SHT_REL || r.stype == BitVec.ofNat 32 SHT_RELA) && r.link.toNat == i
+      then j :: relsOfGo i n rest (j + 1)
+      else relsOfGo i n rest (j + 1)
+
 /-- indices of the relocation sections the `arrange` callback updates: every OTHER section of type
     SHT_REL / SHT_RELA whose sh_link is `i` -/
-def relsOf (o : Obj) (i : Nat) : List Nat :=
-  (List.range (o.secs.length % 65536)).filter fun j =>
-    match o.secs[j]? with
-    | some r => j != i && (r.stype == BitVec.ofNat 32 SHT_REL || r.stype == BitVec.ofNat 32 SHT_RELA) && r.link.toNat == i
-    | none => false
+def relsOf (o : Obj) (i : Nat) : List Nat := relsOfGo i (o.secs.length % 65536) o.secs 0
 
 /-- make the listed sections resident -/
 def settleAll (o : Obj) : List Nat → Obj
@@ -516,6 +521,8 @@ inductive Query
   | needGet (i : Nat) (num k : BitVec 32)
   | defGet (i : Nat) (num k : BitVec 32)
   | arrange (i : Nat)
+  /-- `swap_symbols(first, second)` on section `i` (what the `arrange` callback forwards to) -/
+  | swap (i : Nat) (first second : BitVec 64)
   deriving Repr
 
 inductive Out
@@ -529,6 +536,7 @@ inductive Out
   | need (r : Option Verneed.View)
   | vdef (r : Option Verdef.View)
   | arranged (ret : BitVec 64)
+  | swapped
   deriving Repr
 
 def liftQ {α : Type} (o : Obj) (x : M α) (f : α → Out) : M (Obj × Out) :=
@@ -590,6 +598,13 @@ def runQuery (o : Obj) : Query → M (Obj × Out)
         | .error e => .error e
         | .ok (s', rels', ret) =>
           pure ({ o2 with secs := putAll (o2.secs.set i s') idxs rels' }, .arranged ret)
+  | .swap i first second =>
+    match settle o i with
+    | none => pure (o, .null)
+    | some (o1, b) =>
+      match swapSymbols o.enc b first second with
+      | .error e => .error e
+      | .ok b' => pure ({ o1 with secs := o1.secs.set i b' }, .swapped)
 
 end TQ
 end ElfioVerif
